@@ -2109,7 +2109,7 @@ func float32ToHalf(f float32) uint16 {
 			}
 		}
 		return uint16(sign<<15) | halfExp<<10 | halfFrac
-	case exp > -25: // subnormal range
+	case exp >= -25: // subnormal range (exp == -25 can still round up to the smallest subnormal)
 		frac |= 0x800000
 		shift := uint(-14 - exp)
 		// Round-to-nearest-even for subnormals
